@@ -1,4 +1,5 @@
 import PttVerif.Proofs.C12c
+import PttVerif.Props.C07
 /-
 C12 — Creating boards keeps .BRD, the shared cache and the indexes coherent.
 Property theorems only (helper lemmas live in Proofs/C12*.lean).
@@ -216,6 +217,47 @@ theorem refused_refines {srt : Sorter} (hs : SortSpec srt) {s : State} (h : Inv 
   subst hres
   have hno : ∀ b, res ≠ .ok b := fun b e => specDecide_ne_ok _ _ _ _ b (by rw [hd, e])
   exact Prod.ext (hsame hno) h1
+
+/-! #### who may create without PERM_BOARD: the moderators of the parent class -/
+
+theorem specDecide_none_permitted {l : List Nat} {d : List Bytes} {t : List Rec} {q : Req}
+    (h : specDecide l d t q = none) : permitted t q = true := by
+  unfold specDecide at h
+  repeat' split at h
+  all_goals first | cases h | skip
+  rename_i h1 h1' h2 h3 h4 h5 h6 h7
+  simpa using h2
+
+/-- LEAK DIRECTION of the permission test, for every state, sorter and request: a creator without PERM_BOARD whose
+request is accepted IS one of the '/'-separated names of the parent class's moderator string (ids alphanumeric,
+the moderator string made of ids and '/').  `is_uBM` is C07's model; this is its `is_uBM_sound` carried to
+`NewBoard`. -/
+theorem group_operator_sound {srt : Sorter} (hs : SortSpec srt) {s : State} (h : Inv s) (q : Req) (b : Nat)
+    (hb : (newBoard srt s q).2 = .ok (.ok b)) (hnb : hasBit q.ulevel PERM_BOARD = false)
+    (hv : C07.validId (cstr q.user))
+    (hw : C07.wellFormedBM (cstr (s.brd.getD (q.cls.toNat - 1) Rec.zero).bm)) :
+    C07.Spec.namedIn q.user (s.brd.getD (q.cls.toNat - 1) Rec.zero).bm = true := by
+  obtain ⟨res, h1, hstep, _⟩ := create_refines hs h q
+  rw [hb] at h1; cases h1
+  have hp : permitted s.brd q = true := by
+    unfold SpecStep at hstep
+    split at hstep
+    · rename_i r hr
+      exact absurd (hstep.1 ▸ hr) (specDecide_ne_ok _ _ _ _ _)
+    · rename_i hn
+      exact specDecide_none_permitted hn
+  simp only [permitted, groupOpOf, hnb, Bool.false_or] at hp
+  exact C07.Props.is_uBM_sound _ _ hv hw hp
+
+/-- an id that merely OCCURS in a moderator's id — repeated back to back, overlapping, with a prefix or a suffix — is
+not that moderator: "Kahou" in "KahouKahou", "ab" in "abab" / "xabab" / "ababy", "aa" in "aaa", and at a later
+position of the list ("modA/abab").  (The rule seed C12-r5-2 broke.) -/
+theorem repeated_id_is_not_moderator :
+    let f := fun (u b : String) => isUBM (u.toUTF8.toList.map (·.toNat)) (b.toUTF8.toList.map (·.toNat))
+    f "Kahou" "KahouKahou" = false ∧ f "Kahou" "xKahouKahou" = false ∧ f "ab" "abab" = false ∧
+    f "ab" "xabab" = false ∧ f "ab" "ababy" = false ∧ f "aa" "aaa" = false ∧ f "aa" "aaaa" = false ∧
+    f "ab" "modA/abab" = false ∧ f "ab" "abab/modB" = false ∧ f "ab" "modA/ab" = true ∧ f "ab" "ab/abab" = true := by
+  decide +kernel
 
 /-! #### the bbs wrapper -/
 
